@@ -1,3 +1,6 @@
+// replay for property C12, harness c12_reverse_involution_h6 (/verif/harness/sciparse/c12_path_ops.rs)
+// failed checks reported by CBMC:
+//   attempt to subtract with overflow @ crates/libs/sciparse/src/proto/dataplane_path/standard/view.rs:429:28 in function proto::dataplane_path::standard::view::StandardPathView::try_reverse
 //! verif-attach: file=crates/libs/sciparse/src/proto/dataplane_path/standard/view.rs crate=sciparse mod=verif_c12
 //!
 //! C12 — views and models agree; a failed operation leaves its operand untouched.
@@ -248,3 +251,442 @@ fn c12_reverse_agree_s212() {
 fn c12_reverse_agree_s120() {
     reverse_agree([1, 2, 0])
 }
+
+#[cfg(test)]
+mod verif_playback {
+    use super::*;
+/// Test generated for harness `proto::dataplane_path::standard::view::verif_c12::c12_reverse_involution_h6` 
+///
+/// Check for `assertion`: "attempt to subtract with overflow"
+
+#[test]
+fn kani_concrete_playback_c12_reverse_involution_h6_12104137702478764889() {
+    let concrete_vals: Vec<Vec<u8>> = vec![
+        // 36ul
+        vec![36, 0, 0, 0, 0, 0, 0, 0],
+        // 68
+        vec![68],
+        // 36
+        vec![36],
+        // 16
+        vec![16],
+        // 4
+        vec![4],
+        // 166
+        vec![166],
+        // 166
+        vec![166],
+        // 166
+        vec![166],
+        // 166
+        vec![166],
+        // 167
+        vec![167],
+        // 166
+        vec![166],
+        // 167
+        vec![167],
+        // 166
+        vec![166],
+        // 167
+        vec![167],
+        // 166
+        vec![166],
+        // 166
+        vec![166],
+        // 166
+        vec![166],
+        // 167
+        vec![167],
+        // 166
+        vec![166],
+        // 167
+        vec![167],
+        // 166
+        vec![166],
+        // 166
+        vec![166],
+        // 166
+        vec![166],
+        // 166
+        vec![166],
+        // 166
+        vec![166],
+        // 167
+        vec![167],
+        // 166
+        vec![166],
+        // 167
+        vec![167],
+        // 166
+        vec![166],
+        // 167
+        vec![167],
+        // 166
+        vec![166],
+        // 166
+        vec![166],
+        // 166
+        vec![166],
+        // 167
+        vec![167],
+        // 166
+        vec![166],
+        // 167
+        vec![167],
+        // 166
+        vec![166],
+        // 166
+        vec![166],
+        // 166
+        vec![166],
+        // 166
+        vec![166],
+        // 166
+        vec![166],
+        // 167
+        vec![167],
+        // 166
+        vec![166],
+        // 167
+        vec![167],
+        // 166
+        vec![166],
+        // 167
+        vec![167],
+        // 166
+        vec![166],
+        // 166
+        vec![166],
+        // 166
+        vec![166],
+        // 167
+        vec![167],
+        // 166
+        vec![166],
+        // 167
+        vec![167],
+        // 166
+        vec![166],
+        // 167
+        vec![167],
+        // 166
+        vec![166],
+        // 134
+        vec![134],
+        // 166
+        vec![166],
+        // 167
+        vec![167],
+        // 166
+        vec![166],
+        // 167
+        vec![167],
+        // 166
+        vec![166],
+        // 166
+        vec![166],
+        // 166
+        vec![166],
+        // 166
+        vec![166],
+        // 38
+        vec![38],
+        // 166
+        vec![166],
+        // 182
+        vec![182],
+        // 166
+        vec![166],
+        // 166
+        vec![166],
+        // 166
+        vec![166],
+        // 166
+        vec![166],
+        // 166
+        vec![166],
+        // 182
+        vec![182],
+        // 166
+        vec![166],
+        // 164
+        vec![164],
+        // 166
+        vec![166],
+        // 162
+        vec![162],
+        // 166
+        vec![166],
+        // 38
+        vec![38],
+        // 174
+        vec![174],
+        // 167
+        vec![167],
+        // 166
+        vec![166],
+        // 166
+        vec![166],
+        // 166
+        vec![166],
+        // 166
+        vec![166],
+        // 166
+        vec![166],
+        // 166
+        vec![166],
+        // 166
+        vec![166],
+        // 166
+        vec![166],
+        // 166
+        vec![166],
+        // 166
+        vec![166],
+        // 166
+        vec![166],
+        // 166
+        vec![166],
+        // 166
+        vec![166],
+        // 166
+        vec![166],
+        // 166
+        vec![166],
+        // 166
+        vec![166],
+        // 166
+        vec![166],
+        // 166
+        vec![166],
+        // 166
+        vec![166],
+        // 166
+        vec![166],
+    ];
+    let mut concrete_vals = concrete_vals;
+    concrete_vals.extend(std::iter::repeat(vec![0u8]).take(8192));
+    kani::concrete_playback_run(concrete_vals, c12_reverse_involution_h6);
+}
+
+/// Test generated for harness `proto::dataplane_path::standard::view::verif_c12::c12_reverse_involution_h6` 
+///
+/// Check for `cover`: "three-segment path reversed"
+
+#[test]
+fn kani_concrete_playback_c12_reverse_involution_h6_4195369033390983201() {
+    let concrete_vals: Vec<Vec<u8>> = vec![
+        // 66ul
+        vec![66, 0, 0, 0, 0, 0, 0, 0],
+        // 68
+        vec![68],
+        // 32
+        vec![32],
+        // 16
+        vec![16],
+        // 130
+        vec![130],
+        // 162
+        vec![162],
+        // 162
+        vec![162],
+        // 162
+        vec![162],
+        // 162
+        vec![162],
+        // 163
+        vec![163],
+        // 162
+        vec![162],
+        // 163
+        vec![163],
+        // 162
+        vec![162],
+        // 163
+        vec![163],
+        // 162
+        vec![162],
+        // 162
+        vec![162],
+        // 162
+        vec![162],
+        // 163
+        vec![163],
+        // 162
+        vec![162],
+        // 163
+        vec![163],
+        // 162
+        vec![162],
+        // 163
+        vec![163],
+        // 162
+        vec![162],
+        // 162
+        vec![162],
+        // 162
+        vec![162],
+        // 163
+        vec![163],
+        // 162
+        vec![162],
+        // 163
+        vec![163],
+        // 162
+        vec![162],
+        // 163
+        vec![163],
+        // 162
+        vec![162],
+        // 162
+        vec![162],
+        // 162
+        vec![162],
+        // 163
+        vec![163],
+        // 162
+        vec![162],
+        // 163
+        vec![163],
+        // 162
+        vec![162],
+        // 163
+        vec![163],
+        // 162
+        vec![162],
+        // 162
+        vec![162],
+        // 162
+        vec![162],
+        // 163
+        vec![163],
+        // 162
+        vec![162],
+        // 163
+        vec![163],
+        // 162
+        vec![162],
+        // 163
+        vec![163],
+        // 162
+        vec![162],
+        // 162
+        vec![162],
+        // 162
+        vec![162],
+        // 163
+        vec![163],
+        // 162
+        vec![162],
+        // 163
+        vec![163],
+        // 162
+        vec![162],
+        // 163
+        vec![163],
+        // 162
+        vec![162],
+        // 130
+        vec![130],
+        // 162
+        vec![162],
+        // 163
+        vec![163],
+        // 162
+        vec![162],
+        // 163
+        vec![163],
+        // 162
+        vec![162],
+        // 163
+        vec![163],
+        // 162
+        vec![162],
+        // 162
+        vec![162],
+        // 34
+        vec![34],
+        // 162
+        vec![162],
+        // 178
+        vec![178],
+        // 162
+        vec![162],
+        // 162
+        vec![162],
+        // 162
+        vec![162],
+        // 162
+        vec![162],
+        // 162
+        vec![162],
+        // 178
+        vec![178],
+        // 162
+        vec![162],
+        // 160
+        vec![160],
+        // 162
+        vec![162],
+        // 166
+        vec![166],
+        // 162
+        vec![162],
+        // 34
+        vec![34],
+        // 170
+        vec![170],
+        // 163
+        vec![163],
+        // 162
+        vec![162],
+        // 162
+        vec![162],
+        // 162
+        vec![162],
+        // 162
+        vec![162],
+        // 162
+        vec![162],
+        // 162
+        vec![162],
+        // 162
+        vec![162],
+        // 162
+        vec![162],
+        // 162
+        vec![162],
+        // 162
+        vec![162],
+        // 162
+        vec![162],
+        // 162
+        vec![162],
+        // 162
+        vec![162],
+        // 162
+        vec![162],
+        // 162
+        vec![162],
+        // 162
+        vec![162],
+        // 162
+        vec![162],
+        // 162
+        vec![162],
+        // 162
+        vec![162],
+        // 162
+        vec![162],
+    ];
+    let mut concrete_vals = concrete_vals;
+    concrete_vals.extend(std::iter::repeat(vec![0u8]).take(8192));
+    kani::concrete_playback_run(concrete_vals, c12_reverse_involution_h6);
+}
+}
+
+// native replay (full trace; cargo kani playback, dev profile, real code):
+//   kani_concrete_playback_c12_reverse_involution_h6_12104137702478764889: reproduced (attempt to subtract with overflow)
+//   kani_concrete_playback_c12_reverse_involution_h6_4195369033390983201: did not reproduce (cover:three-segment path reversed)
+// re-run: bin/check C12 --replay /verif/replays/C12/c12_reverse_involution_h6.rs
